@@ -51,6 +51,10 @@ CHECKS = {
   "Every combination of header kind x depth, dotted-key depth and up to 2-3 value constructs x depth over a depth set around the limit (1, 2, 39, 40, 78-81, 200, 3000) is parsed, printed, debug-printed, cloned, dropped, despanned and deserialized on a 2 MiB thread inside a sacrificial process, in an opt-level-0 build and a release build; the worker must survive, rejection must be the recursion-limit error, accepted trees are at most K = 160 deep, single constructs are accepted below 80 and rejected from 80.",
   "K = 160 (one header path plus one counted nest) is this check's reading of 'a small constant'; the claim over all inputs is decided for the enumerated construct combinations only.",
   "exhaustive enumeration of nesting-construct combinations around the limit; process-isolated bounded-stack execution"),
+ "C16": ("model_checking", "state", "5/C16",
+  "Explicit-state breadth-first search to closure for Table, InlineTable, Array, ArrayOfTables and toml::Map: a state is (real container, reference ordered map / vector), a transition is one real API call over keys {a,b,c} and a small value set (including sub-tables, inline tables, arrays of tables and placeholders left by mutable indexing), applied to both; after every transition the return value and a full observation (len, is_empty, iteration order, get / contains_* / get_key_value per key, into_iter, printed and re-parsed text, the dyn TableLike view) must agree. States are deduplicated by the Debug form of the real object plus the model; the search reports states, transitions, depth and closure.",
+  "Item::None is read as 'absent'; reserved slots are invisible and only constrain where a later insert lands (the model mirrors the documented mechanics per container); array lengths bounded by 3-4; toml::Map's insertion-ordered configuration is searched by the cfg engine's binary (C18).",
+  "explicit-state BFS over real API call histories with canonical-state deduplication; step-wise conformance with a reference container"),
 }
 
 NOT_YET = {}
